@@ -72,7 +72,7 @@ func c13Spec() spec.Spec {
 
 var c13Inputs = []string{
 	`<my-xy id=a style="width: 5px; color: blue">t</my-xy>`,
-	`<my-y style="width: 7px"><a href="http://example.org/">l</a></my-y><p style="color: red">y</p>`,
+	`<my-y style="width: 7px"><a href="http://example.org/">l</a></my-y>`,
 	`<img src="https://e.x/i.png"><p style="color: red">x</p>`,
 	`<my-x style="height: 2px"><a>z</a></my-x>`,
 }
@@ -906,7 +906,8 @@ func RaceBody() int {
 			defer wg.Done()
 			<-start
 			for it := 0; it < 2000; it++ {
-				i := (g + it) % len(c13Inputs)
+				// goroutines g and g+2 walk the inputs in step, so each input's first call on the shared policy is made twice at once
+				i := (g%2 + it) % len(c13Inputs)
 				var out string
 				switch it % 4 {
 				case 0:
